@@ -242,6 +242,93 @@ def write_error_section(rng, res, count):
             res["violations"].append(("acknowledged-put-not-stored", "a Put was acknowledged as committed although its bytes are not what the path holds", rep))
 
 
+def lock_window_section(rng, res, count):
+    """C03: the window between a server's compare (under the commit lock) and its rename, held open by delaying that server's
+    `flock` and `rename` (strace delay injection on server 1 only). f = X. Client 1 sends Put f {expected: None, A} (stale: f
+    exists). While server 1 waits to enter flock, client 2's Delete f {expected: h(X)} commits; server 1 then locks, finds f
+    absent = its expectation, and waits to enter rename; client 2 sends Put f {expected: None, B}. One-at-a-time semantics allow
+    at most ONE of the two creates to be acknowledged as committed (the other meets an existing file); a create that goes
+    around the lock (seed C03-J: a lock-free `link`) is acknowledged too, and then overwritten by server 1's rename."""
+    for rnd in range(2):
+        X, A, B = b"initial version\n", b"create by client 1 " + bytes(rng.bytes(8)).hex().encode(), b"create by client 2 " + bytes(rng.bytes(8)).hex().encode()
+        hX, hA, hB = (bytes.fromhex(v) for v in blake3_hex([X, A, B]))
+        with Sandbox("C03") as sb:
+            root = sb.path("hub"); sb.write_tree(root, {"f": X}); os.makedirs(os.path.join(root, ".copia"), exist_ok=True)
+            s1 = Server.__new__(Server)
+            s1.p = subprocess.Popen(["strace", "-f", "-qq", "-o", "/dev/null", "-e", "trace=flock,rename,renameat,renameat2",
+                                     "-e", "inject=flock:delay_enter=900000:when=1", "-e", "inject=rename,renameat,renameat2:delay_enter=1500000:when=1",
+                                     CLI_BIN, "serve", root], stdin=subprocess.PIPE, stdout=subprocess.PIPE, stderr=subprocess.PIPE, env=sb.env, cwd=sb.dir)
+            s1.buf = b""
+            s2 = Server(sb, root)
+            ok = True
+            for s_ in (s1, s2):
+                s_.send(H.MAGIC + H.frame(H.req_hello()))
+                ok = ok and s_.read_reply() == "hello:1"
+            if not ok:
+                res["broken"].append("C03/lock-window: handshake failed"); s1.p.kill(); s2.p.kill(); continue
+            s1.send(H.frame(H.req_put("f", None, len(A), hA)) + A)            # t = 0: staged, then held before flock until 0.9 s
+            time.sleep(0.3)
+            s2.send(H.frame(H.req_delete("f", hX)))                          # t = 0.3: commits (nobody holds the lock)
+            r_del = s2.read_reply()
+            time.sleep(max(0.0, 1.3 - 0.3 - 0.05))                           # t ≈ 1.3: server 1 holds the lock, compared, waits before rename
+            s2.send(H.frame(H.req_put("f", None, len(B), hB)) + B)
+            r1 = s1.read_reply()
+            r2 = s2.read_reply()
+            for s_ in (s1, s2):
+                s_.send(H.frame(H.req_bye()))
+            time.sleep(0.1)
+            for s_ in (s1, s2):
+                try:
+                    s_.p.wait(timeout=5)
+                except subprocess.TimeoutExpired:
+                    s_.p.kill()
+            after = nonstaging(H.hub_tree(root))
+        count("lock-window")
+        rep = {"delete_reply": r_del, "client1_put_reply": r1, "client2_put_reply": r2, "after": {k: v.decode("utf-8", "replace")[:40] for k, v in after.items()}}
+        c1, c2 = (r1 or "").startswith("put:1"), (r2 or "").startswith("put:1")
+        if c1 and c2:
+            res["violations"].append(("two-creates-of-one-path-both-committed", f"f was deleted once; two Puts with expected=None were BOTH acknowledged as committed (final f: {after.get('f', b'<absent>')[:30]!r}) — no one-at-a-time order allows that", rep))
+        for who, cc_, committed in (("client 1", A, c1), ("client 2", B, c2)):
+            if not any(v == cc_ for v in after.values()) and (r1 if who == "client 1" else r2) and (r1 if who == "client 1" else r2).startswith("put:"):
+                res["violations"].append(("acknowledged-content-not-on-hub", f"{who}'s bytes were acknowledged ({'committed' if committed else 'conflict-copy'}) but are nowhere on the hub", rep))
+
+
+def hasher_scope_section(rng, res, count):
+    """C10: a Put is verified against the hash of ITS OWN bytes, whatever the session consumed before. One session: a request
+    whose content X the hub reads without committing it (a refused path — the content is drained —, a wrong-hash Put), then a Put
+    that streams Y and declares BLAKE3(X ++ Y): that is a wrong hash and must be refused (seed C10-J: a hasher kept per session
+    still held the drained bytes). Also Y declared as BLAKE3(Y ++ X) and BLAKE3(X), and the honest Put right after."""
+    for pred in ("refused-path", "wrong-hash", "refused-then-get"):
+        for xi, X in enumerate((b"x", b"drained content of a refused request\n", bytes(rng.bytes(70_000)))):
+            Y = b"the bytes actually streamed " + bytes(rng.bytes(40))
+            hx, hy, hxy, hyx = (bytes.fromhex(v) for v in blake3_hex([X, Y, X + Y, Y + X]))
+            stream = H.MAGIC + H.frame(H.req_hello())
+            if pred == "wrong-hash":
+                stream += H.frame(H.req_put("g", None, len(X), hy)) + X
+            else:
+                stream += H.frame(H.req_put("../outside", None, len(X), hx)) + X
+            if pred == "refused-then-get":
+                stream += H.frame(H.req_get("keep.txt"))
+            lies = [("f1", hxy, "BLAKE3(previous ++ own)"), ("f2", hyx, "BLAKE3(own ++ previous)"), ("f3", hx, "BLAKE3(previous)")]
+            for nm, hh, _ in lies:
+                stream += H.frame(H.req_put(nm, None, len(Y), hh)) + Y
+            stream += H.frame(H.req_put("honest", None, len(Y), hy)) + Y + H.frame(H.req_bye())
+            with Sandbox("C10") as sb:
+                root = sb.path("hub"); sb.write_tree(root, {"keep.txt": b"kept"}); os.makedirs(os.path.join(root, ".copia"), exist_ok=True)
+                rc, out, err = H.run_server(sb, root, stream)
+                after = nonstaging(H.hub_tree(root))
+            count("hasher-scope/" + pred)
+            toks = parse_replies(out)
+            rep = {"predecessor": pred, "previous_content_bytes": len(X), "rc": rc, "replies": toks, "after": sorted(after), "stderr": err[-200:]}
+            for nm, hh, what in lies:
+                if nm in after:
+                    res["violations"].append(("unverified-bytes-committed", f"hub path {nm} holds bytes that do not hash to the declared hash ({what}); replies {toks}", rep))
+            if any(t.startswith("put:1") for t in toks[-4:-1]):
+                res["violations"].append(("wrong-hash-put-acknowledged", f"a Put whose bytes do not hash to its declared hash was acknowledged as committed; replies {toks}", rep))
+            if after.get("honest") != Y:
+                res["violations"].append(("honest-put-after-rejected-ones-not-stored", f"the honest Put that follows was not committed (replies {toks})", rep))
+
+
 def run(pid, tier, seed, rundir, model_run):
     rng = Rng(seed ^ (0xC03 if pid == "C03" else 0xC10))
     res = {"violations": [], "broken": [], "notes": [], "distribution": {}, "samples": []}
@@ -250,8 +337,11 @@ def run(pid, tier, seed, rundir, model_run):
     def count(k, c=1):
         dist[k] = dist.get(k, 0) + c
 
+    if pid == "C03":
+        lock_window_section(rng, res, count)
     if pid == "C10":
         write_error_section(rng, res, count)
+        hasher_scope_section(rng, res, count)
     ncases = 70 * (12 if tier == "thorough" else 1)
     global HASHCODES
     HASHCODES = HashCodes()
